@@ -706,6 +706,50 @@ def install_connect(e):
                                                    (0 if c.ghost.get("$own_socket") else 1)),
                                        "$delta": 0 if c.ghost.get("$own_socket") else 1},
            modifies=lambda c, fr: [fr.locals["self"], fr.locals["options"]])
+    # ---- create_connection(url, timeout, **options) -----------------------------------------------------------
+    def cc_case(kind):
+        def case(c):
+            ghost_conn(c)
+            ghost_close(c)
+            c.ghost["opened_handles"] = c.fresh("int", "opened_handles")
+            c.ghost["jar_adds"] = c.fresh("int", "jar_adds")
+            t = c.fresh("real", "timeout") if kind == "timeout" else None
+            for g, tg in (("attempts", "int"), ("clock", "real"), ("rx", "bytes"), ("rpos", "int"), ("fstart", "int"), ("rx_calls", "int")):
+                c.ghost.setdefault(g, c.fresh(tg, g))
+            return dict(url=c.fresh("str", "url"), timeout=t, options=c.alloc("dict", None, {}))
+        return case
+
+    def timeout_before_connect(c, fr, args):
+        """ghost assertion at the call of connect() inside create_connection: the timeout the caller asked for (else the module
+        default) is already in force, so the connection set-up and the handshake cannot block for ever on a silent peer (C09 / C17)."""
+        ws = fr.locals.get("websock")
+        t = fr.locals.get("timeout")
+        if not isinstance(ws, Ref):
+            return
+        cur = c.getf(c.getf(ws, "sock_opt"), "timeout")
+        want = t if t is not None else c.ghost.get("$default_timeout")
+        if t is None and "$default_timeout" not in c.ghost:
+            goal = z3.BoolVal(False)
+        elif cur is want:
+            goal = z3.BoolVal(True)
+        else:
+            r = e.interp.same_value(c, cur, want)
+            goal = z3.BoolVal(r) if isinstance(r, bool) else r
+        c.prove("create_connection.timeout-set-before-connect", goal, c.last_call_node)
+    e.before_call[("create_connection", "connect")] = timeout_before_connect
+    e.after_call[("create_connection", "getdefaulttimeout")] = lambda c, fr, r: c.ghost.__setitem__("$default_timeout", r)
+
+    def cc_post(c, old, a, res):
+        return z3.And(z3.BoolVal(isinstance(res, Ref)), z(c.getf(res, "connected"), "bool") if isinstance(res, Ref) else z3.BoolVal(False))
+    e.add(Contract(K + "create_connection", cases=[("timeout-given", cc_case("timeout")), ("default-timeout", cc_case("none"))],
+                   ensures=cc_post, raises=[(k_, None, None) for k_ in (X.WebSocketException, OSError, http_mod.ProxyError, _socket.timeout, UnicodeEncodeError, ValueError)],
+                   modifies=lambda c, a: [a["options"]] + ["ghost:" + g for g in ("opened_handles", "closed_handles", "rpos", "rx_calls", "wire", "tx_calls", "draws",
+                                                                                  "$line_start", "jar_adds", "clock", "auto_close", "rx", "fstart", "attempts",
+                                                                                  "last_attempt_clock", "m_open")],
+                   props=("C09", "C17"),
+                   doc="a new WebSocket on which the requested timeout (else the module default) is set before connect() runs; returns it only "
+                       "connected (contract of connect())"))
+
     old_ct = e.contracts[K + "WebSocket.connect"]
     WC_EXC = [X.WebSocketException, OSError, http_mod.ProxyError, _socket.timeout, UnicodeEncodeError]
     e.add(Contract(K + "WebSocket.connect", cases=[("resolve", wc_case("resolve")), ("own-socket", wc_case("own-socket"))],
